@@ -597,6 +597,36 @@ example : (map bodySem .sync prog2 0 vals2 ["x", "z"] .product .cont {}).results
        [("y", .int 12)], [("y", .int 22)], [("y", .int 32)]] := by rfl
 example : generateMapInputs vals2 ["x", "z"] .zip = .error (.valueError "zip") := by rfl
 example : generateMapInputs [("x", .int 3)] ["x"] .zip = .error (.typeError "map_over") := by rfl
+/-- a limit without a slot: refused, nothing ran -/
+example : (mapLimited bodySem .sync prog1 0 vals1 ["x"] .zip .cont {} (some 0)).raised = some (.valueError "max_concurrency") := by rfl
+example : (mapLimited bodySem .sync prog1 0 vals1 ["x"] .zip .cont {} (some 2)).results.length = 3 := by rfl
 end examples
+
+/-! ## the concurrency limit (fix b2c6023): validated up front, otherwise absent from the result -/
+
+/-- every valid limit gives the result of the unlimited map: all theorems above about `map` hold under every `max_concurrency ≥ 1` -/
+theorem map_limit_irrelevant (sem : Sem) (runner : Runner) (prog : Program) (root : Nat) (values : AL Val)
+    (mapOver : List Name) (mode : MapMode) (em : ErrMode) (cfg : RunCfg) (k : Option Int) (hk : limitOk k = true) :
+    mapLimited sem runner prog root values mapOver mode em cfg k = map sem runner prog root values mapOver mode em cfg := by
+  simp [mapLimited, hk]
+
+/-- a limit below one is refused before anything runs: no result, no log entry (no call, no event), `ValueError` raised -/
+theorem map_no_slot_rejected (sem : Sem) (runner : Runner) (prog : Program) (root : Nat) (values : AL Val)
+    (mapOver : List Name) (mode : MapMode) (em : ErrMode) (cfg : RunCfg) (k : Int) (hk : k < 1) :
+    let m := mapLimited sem runner prog root values mapOver mode em cfg (some k)
+    m.raised = some (.valueError "max_concurrency") ∧ m.results = [] ∧ m.log = [] := by
+  have : limitOk (some k) = false := by simp [limitOk]; omega
+  simp [mapLimited, this]
+
+/-- what the unrepaired code did with `max_concurrency = 0`: zero workers, the empty list returned for any number of combinations —
+not one result per combination (witness: three items) -/
+def mapNoSlotOld (_k : Option Int) : MapOut := {}
+
+theorem flaw_no_slot_drops_items :
+    (mapNoSlotOld (some 0)).raised = .none ∧
+    (mapNoSlotOld (some 0)).results.length ≠ (map bodySem .sync prog1 0 vals1 ["x"] .zip .cont {}).results.length := by
+  constructor
+  · rfl
+  · decide
 
 end HG.C10
